@@ -186,25 +186,45 @@ Proof.
     destruct c; try discriminate; destruct d; try discriminate; reflexivity.
 Qed.
 
+Lemma upd_px_fixed_ok m s o :
+  px_ok m s = true -> px_ok (maskable m) o = true -> px_ok (maskable m) (upd_px_fixed m s o) = true.
+Proof.
+  intros Hs Ho. destruct m; cbn [upd_px_fixed]; try (apply upd_px_ok; assumption);
+    destruct s; try exact Ho; destruct o; try exact Ho;
+    match goal with |- context [if ?c then _ else _] => destruct c end; reflexivity.
+Qed.
+
+Lemma update_fixed_ok_lemma src buf iy ix by_ bx out :
+  img_ok src -> img_ok buf -> update_into_gen upd_px_fixed src buf iy ix by_ bx = Some out -> img_ok out.
+Proof.
+  intros Hs Hb. unfold update_into_gen.
+  destruct (rects src buf iy ix by_ bx) as [[[[vy vx] wy] wx]|] eqn:ER; [|discriminate].
+  intros H; injection H as <-. intros r c; cbn [imode ipx].
+  destruct (rects_some _ _ _ _ _ _ _ _ _ _ ER) as (_ & _ & _ & _ & _ & _ & Em).
+  pose proof (Hb r c) as Hbrc. rewrite Em in Hbrc |- *.
+  destruct (view_inv wy r); [destruct (view_inv wx c)|]; try exact Hbrc.
+  apply upd_px_fixed_ok; [apply Hs | exact Hbrc].
+Qed.
+
 Lemma update_all_ok : forall (l : list ((slice * slice) * option img)) b bf,
   img_ok b -> (forall s c, In (s, Some c) l -> img_ok c) ->
-  update_all upd_px b l = Some bf -> img_ok bf.
+  update_all upd_px_fixed b l = Some bf -> img_ok bf.
 Proof.
   induction l as [|[[sy sx] [c|]] l IH]; intros b bf Hb Hc H; cbn [update_all] in H.
   - injection H as <-. exact Hb.
-  - destruct (update_into_gen upd_px c b full_slice full_slice sy sx) as [b1|] eqn:E; [|discriminate].
+  - destruct (update_into_gen upd_px_fixed c b full_slice full_slice sy sx) as [b1|] eqn:E; [|discriminate].
     apply (IH b1 bf); [|intros s c' Hin; apply (Hc s c'); right; exact Hin|exact H].
-    apply (update_ok_lemma c b full_slice full_slice sy sx b1); [apply (Hc (sy, sx) c); left; reflexivity|exact Hb|exact E].
+    apply (update_fixed_ok_lemma c b full_slice full_slice sy sx b1); [apply (Hc (sy, sx) c); left; reflexivity|exact Hb|exact E].
   - apply (IH b bf Hb); [intros s c' Hin; apply (Hc s c'); right; exact Hin|exact H].
 Qed.
 
 Lemma merge_tiles_ok f k cs m :
   (forall ch, In (Some ch) cs -> img_ok ch) ->
-  merge_tiles f k cs = Some (Some m) -> img_ok m.
+  merge_tiles_fixed f k cs = Some (Some m) -> img_ok m.
 Proof.
-  intros Hok. unfold merge_tiles, merge_tiles_gen.
+  intros Hok. unfold merge_tiles_fixed, merge_tiles_gen.
   destruct (first_present cs) as [c0|]; [|discriminate].
-  destruct (update_all upd_px _ (combine (slices_for f k) cs)) as [bf|] eqn:E; [|discriminate].
+  destruct (update_all upd_px_fixed _ (combine (slices_for f k) cs)) as [bf|] eqn:E; [|discriminate].
   intros H; injection H as <-.
   assert (Hbf : img_ok bf).
   { eapply update_all_ok; [| |exact E].
@@ -250,13 +270,13 @@ Lemma float_merge_not_masked f k c0 c1 c2 c3 m n ch y x q :
   (forall c, In (Some c) [c0; c1; c2; c3] -> is_float_mode (imode c) = true /\ img_ok c /\ 0 <= ih c /\ 0 <= iw c) ->
   (n < 4)%nat -> nth n [c0; c1; c2; c3] None = Some ch ->
   0 <= y < k -> 0 <= x < k -> ipx ch y x = PxF (Some q) ->
-  merge_tiles f k [c0; c1; c2; c3] = Some (Some m) ->
+  merge_tiles_fixed f k [c0; c1; c2; c3] = Some (Some m) ->
   is_completely_masked m = false.
 Proof.
   intros Hk Hc Hn En Hy Hx Epx H.
   assert (Hd : dims_ok [c0; c1; c2; c3]).
   { intros c Hin. destruct (Hc c Hin) as (_ & _ & A & B). auto. }
-  destruct (merge_pixel_gen upd_px f k c0 c1 c2 c3 m Hk Hd H) as (ch0 & EF & Mh & Mw & Mm & Hsz & F).
+  destruct (merge_pixel_gen upd_px_fixed f k c0 c1 c2 c3 m Hk Hd H) as (ch0 & EF & Mh & Mw & Mm & Hsz & F).
   pose proof (first_present_in _ _ EF) as Hin0.
   destruct (Hc ch0 Hin0) as (Hf0 & _).
   assert (Em : is_float_mode (imode m) = true).
@@ -267,7 +287,7 @@ Proof.
   rewrite all_px_spec in EA. rewrite Mh, Mw in EA.
   pose proof (nth_some_in _ _ _ En) as Hinc.
   destruct (Hsz ch Hinc) as (Chh & _ & Cm).
-  set (M := mosaic_of (mosaic_val_gen upd_px) (bottom_up f) k (imode ch0) [c0; c1; c2; c3]).
+  set (M := mosaic_of (mosaic_val_gen upd_px_fixed) (bottom_up f) k (imode ch0) [c0; c1; c2; c3]).
   (* every mosaic pixel is a float pixel *)
   assert (HM : forall r c, exists v, M r c = PxF v).
   { intros r c. unfold M, mosaic_of.
@@ -277,10 +297,10 @@ Proof.
       set (pp := if bottom_up f then ipx cc (ih cc - 1 - r mod k) (c mod k) else ipx cc (r mod k) (c mod k)).
       assert (Hpp : px_ok (imode cc) pp = true) by (unfold pp; destruct (bottom_up f); apply Hokc).
       destruct (float_px _ _ Hfc Hpp) as (v & ->).
-      destruct (imode cc); try discriminate; cbn [upd_px src_valid fill_px masked_px];
+      destruct (imode cc); try discriminate; cbn [upd_px_fixed upd_px src_valid fill_px masked_px];
         destruct v; eauto.
     - destruct (imode ch0); try discriminate; cbn [masked_px]; eauto. }
-  destruct (mosaic_at (mosaic_val_gen upd_px) (bottom_up f) k (imode ch0) [c0; c1; c2; c3] n ch y x
+  destruct (mosaic_at (mosaic_val_gen upd_px_fixed) (bottom_up f) k (imode ch0) [c0; c1; c2; c3] n ch y x
                       Hk Hn En Chh Hy Hx) as (Eat & Hr0 & Hc0).
   set (r0 := Z.of_nat n / 2 * k + (if bottom_up f then k - 1 - y else y)) in *.
   set (q0 := Z.of_nat n mod 2 * k + x) in *.
@@ -368,11 +388,11 @@ Section RangeSpec.
       assert (Hgood : forall ch, In (Some ch) (map (option_map ft_img) (map (range_spec k leaves f) xs)) -> good_img k bm ch)
         by (intros ch Hin; apply (Hall ch Hin)).
       unfold xs in Hgood. cbn [map] in Hgood.
-      destruct (merge_tiles_total upd_px Fits k bm _ _ _ _ Hk (scalar_maskable bm Hbm) Hgood)
+      destruct (merge_tiles_total upd_px_fixed Fits k bm _ _ _ _ Hk (scalar_maskable bm Hbm) Hgood)
         as [En|(m & Em & Gm & Mm)].
       + (* no child: nothing written, nothing beneath *)
-        unfold xs; cbn [map]. unfold merge_tiles. rewrite En.
-        pose proof (merge_tiles_early upd_px Fits k _ En) as Hnone.
+        unfold xs; cbn [map]. unfold merge_tiles_fixed. rewrite En.
+        pose proof (merge_tiles_early upd_px_fixed Fits k _ En) as Hnone.
         assert (Hz : forall q, In q xs -> leaf_vals leaves f q = []).
         { intros q Hq. pose proof (IH q) as Iq.
           destruct (range_spec k leaves f q) as [t|] eqn:Er; [|exact Iq].
@@ -380,9 +400,9 @@ Section RangeSpec.
           apply Hnone. unfold xs in Hq. cbn [In] in Hq.
           destruct Hq as [<-|[<-|[<-|[<-|[]]]]]; rewrite Er; cbn [option_map In]; auto 6. }
         cbn [flat_map]. rewrite (Hz pa), (Hz pb), (Hz pc), (Hz pd); unfold xs; cbn [In]; auto 6.
-      + unfold xs; cbn [map]. unfold merge_tiles. rewrite Em.
+      + unfold xs; cbn [map]. unfold merge_tiles_fixed. rewrite Em.
         (* a present child *)
-        destruct (merge_tiles_shape upd_px Fits k _ m Em) as (c0 & Ef0).
+        destruct (merge_tiles_shape upd_px_fixed Fits k _ m Em) as (c0 & Ef0).
         pose proof (first_present_in _ _ Ef0) as Hin0.
         assert (Hin0' : In (Some c0) (map (option_map ft_img) (map (range_spec k leaves f) xs))) by exact Hin0.
         destruct (Hall c0 Hin0') as (G0 & M0 & Ok0 & Nm0).
@@ -483,7 +503,7 @@ Qed.
 (* the mechanism: what one callback writes into the parent's cards *)
 Lemma range_callback_spec_lemma k cs t :
   range_callback k cs = Some (Some t) ->
-  exists m, merge_tiles Fits k (map (option_map ft_img) cs) = Some (Some m) /\
+  exists m, merge_tiles_fixed Fits k (map (option_map ft_img) cs) = Some (Some m) /\
             is_completely_masked m = false /\ ft_img t = m /\
             ft_min t = match qmin_opt (opt_vals (map (fun c => match c with Some x => ft_min x | None => None end) cs)) with
                        | Some v => Some v | None => qmin_opt (finite_vals m) end /\
@@ -491,7 +511,7 @@ Lemma range_callback_spec_lemma k cs t :
                        | Some v => Some v | None => qmax_opt (finite_vals m) end.
 Proof.
   unfold range_callback.
-  destruct (merge_tiles Fits k (map (option_map ft_img) cs)) as [[m|]|]; try discriminate.
+  destruct (merge_tiles_fixed Fits k (map (option_map ft_img) cs)) as [[m|]|]; try discriminate.
   destruct (is_completely_masked m) eqn:Em; [discriminate|].
   intros H; injection H as <-. exists m. cbn. auto.
 Qed.
@@ -502,7 +522,7 @@ Lemma range_pixels_lemma k bm leaves orc :
   forall fuel p,
     option_map ft_img (range_spec k leaves fuel p) =
     option_map (decode (orc p))
-               (pyramid_spec upd_px Fits k orc
+               (pyramid_spec upd_px_fixed Fits k orc
                              (fun q => option_map (fun t => FExact (ft_img t)) (leaves q)) fuel p).
 Proof.
   intros Hk Hbm Hl. induction fuel as [|f IH]; intros p.
@@ -511,11 +531,11 @@ Proof.
     cbn [range_spec pyramid_spec] in *. unfold range_callback in *.
     assert (E : map (option_map ft_img) (map (range_spec k leaves f) (children p)) =
                 map (fun c => option_map (decode (orc c))
-                                (pyramid_spec upd_px Fits k orc
+                                (pyramid_spec upd_px_fixed Fits k orc
                                    (fun q => option_map (fun t => FExact (ft_img t)) (leaves q)) f c)) (children p)).
     { rewrite map_map. apply map_ext. intros c. apply IH. }
-    rewrite <- E. unfold merge_tiles in *.
-    destruct (merge_tiles_gen upd_px Fits k (map (option_map ft_img) (map (range_spec k leaves f) (children p))))
+    rewrite <- E. unfold merge_tiles_fixed in *.
+    destruct (merge_tiles_gen upd_px_fixed Fits k (map (option_map ft_img) (map (range_spec k leaves f) (children p))))
       as [[m|]|]; try reflexivity.
     destruct (is_completely_masked m); [reflexivity|].
     destruct Inv as ((_ & Em & _) & _). cbn [save_fits ft_img] in Em.
